@@ -440,6 +440,24 @@ func (r *run) books(op string, report bool, aliasShift map[string]*big.Int) {
 			if d := new(big.Int).Sub(escrow, ts).String(); r.changed("mod:"+p.Denom+t.Hex(), d) && report {
 				r.out.Violate(fmt.Sprintf("I_module: escrowed coins %s != ERC-20 totalSupply %s after %s", escrow, ts, op))
 			}
+			// the denominations of a module-owned coin: every alias coin the module escrows is matched by minted base
+			// coins, i.e. (supply of the base coin − Σ alias coins held by the module) is moved by no message
+			fam := r.w.S.App.BankKeeper.GetSupply(ctx, p.Denom).Amount.BigInt()
+			if md, ok := r.w.S.App.BankKeeper.GetDenomMetaData(ctx, p.Denom); ok && len(md.DenomUnits) > 0 {
+				for _, a := range md.DenomUnits[0].Aliases {
+					fam.Sub(fam, r.w.S.App.BankKeeper.GetBalance(ctx, bx.ModuleAddr(erc20types.ModuleName), a).Amount.BigInt())
+				}
+			}
+			if sh, ok := aliasShift["fam:"+p.Denom]; ok {
+				old, _ := new(big.Int).SetString(r.lastOf("fam:"+p.Denom+t.Hex()), 10)
+				if new(big.Int).Add(old, sh).Cmp(fam) == 0 {
+					r.last["fam:"+p.Denom+t.Hex()] = fam.String()
+					continue
+				}
+			}
+			if d := fam.String(); r.changed("fam:"+p.Denom+t.Hex(), d) && report {
+				r.out.Violate(fmt.Sprintf("I_family: (supply of the base coin − alias coins escrowed by the module) of a module-owned token changed to %s after %s", d, strings.SplitN(op, " ", 2)[0]))
+			}
 		} else {
 			coinSupply := r.w.S.App.BankKeeper.GetSupply(ctx, p.Denom).Amount.BigInt()
 			if md, ok := r.w.S.App.BankKeeper.GetDenomMetaData(ctx, p.Denom); ok && len(md.DenomUnits) > 0 {
@@ -719,12 +737,18 @@ func (r *run) upalias(d, a int) {
 	// what the alias set itself does to the right-hand side of I_external of `d`
 	shift := map[string]*big.Int{}
 	k := r.w.S.App.Erc20Keeper
-	if p, ok := k.GetTokenPair(r.ctx(), baseName(d)); ok && p.IsNativeERC20() {
+	if p, ok := k.GetTokenPair(r.ctx(), baseName(d)); ok {
 		s := r.coinSupply(a)
+		key := p.Denom
+		if p.IsNativeCoin() {
+			// I_family: the alias coins the module already holds enter / leave the sum
+			s = r.coinBal(bx.ModuleAddr(erc20types.ModuleName), a)
+			key = "fam:" + p.Denom
+		}
 		if cur, found := k.GetAliasDenom(r.ctx(), denomName(a)); !found {
-			shift[p.Denom] = new(big.Int).Neg(s) // alias added: the coin supply side grows by its supply
+			shift[key] = new(big.Int).Neg(s) // alias added: the coin supply side grows by its supply
 		} else if cur == baseName(d) {
-			shift[p.Denom] = s
+			shift[key] = s
 		}
 	}
 	r.op(fmt.Sprintf("upalias %d %d", d, a), func() error {
@@ -786,12 +810,25 @@ func (r *run) pairList() []pr {
 
 // convert_exact, coin -> ERC-20: the sender loses exactly n of the pair's coin, the receiver gains exactly n of the
 // pair's ERC-20, no other user balance in any denomination or contract moves
+// disabledFor tells whether conversions of the token are switched off (module parameter or the pair's flag)
+func (r *run) disabledFor(token string) bool {
+	if !r.w.S.App.Erc20Keeper.GetEnableErc20(r.ctx()) {
+		return true
+	}
+	p, ok := r.w.S.App.Erc20Keeper.GetTokenPair(r.ctx(), token)
+	return ok && !p.Enabled
+}
+
 func (r *run) ccoin(d, u, rc, n int) {
 	pairs := r.pairList()
+	off := r.disabledFor(denomName(d))
 	r.op(fmt.Sprintf("ccoin %d %d %d %d", d, u, rc, n), func() error {
 		return r.msg(&erc20types.MsgConvertCoin{Coin: sdk.NewCoin(denomName(d), si(n)), Receiver: r.users[rc].Address().Hex(), Sender: r.users[u].AccAddress().String()})
 	}, opts{check: func(res string, pre, post map[string]*big.Int, preIdx, postIdx string) {
 		got := userDeltas(pre, post)
+		if res == "ok" && off {
+			r.out.Violate("toggle: MsgConvertCoin succeeded although conversion is switched off (module parameter or pair flag)")
+		}
 		if res != "ok" || preIdx != postIdx {
 			if len(got) != 0 || (res != "ok" && preIdx != postIdx) {
 				r.out.Violate("convert_exact: MsgConvertCoin that failed (or removed a dead pair) moved balances " + showDeltas(got))
@@ -817,10 +854,14 @@ func denomClass(d int) string {
 func (r *run) cerc(ct, u, rc, n int) {
 	pairs := r.pairList()
 	t := r.contract[ct]
+	off := r.disabledFor(t.Hex())
 	r.op(fmt.Sprintf("cerc %d %d %d %d", ct, u, rc, n), func() error {
 		return r.msg(&erc20types.MsgConvertERC20{ContractAddress: t.Hex(), Amount: si(n), Receiver: r.users[rc].AccAddress().String(), Sender: r.users[u].Address().Hex()})
 	}, opts{check: func(res string, pre, post map[string]*big.Int, preIdx, postIdx string) {
 		got := userDeltas(pre, post)
+		if res == "ok" && off {
+			r.out.Violate("toggle: MsgConvertERC20 succeeded although conversion is switched off (module parameter or pair flag)")
+		}
 		if res != "ok" || preIdx != postIdx {
 			if len(got) != 0 || (res != "ok" && preIdx != postIdx) {
 				r.out.Violate("convert_exact: MsgConvertERC20 that failed (or removed a dead pair) moved balances " + showDeltas(got))
@@ -941,6 +982,35 @@ func TestC08(t *testing.T) {
 			r.ccoin(1, 0, 0, 1)
 			r.regcoin(3, nil)
 			r.enable(true)
+			// the denominations of a module-owned coin: alias -> base (escrows the alias), alias -> alias (paid out of
+			// the escrow), base -> alias, with and without a different receiver
+			r.fundc(111, 2, 20)
+			r.cden(110, 2, 2, 6, -1)
+			r.cden(111, 2, 0, 7, -1)
+			r.cden(110, 2, 1, 3, 1)
+			r.cden(1, 2, 2, 2, 0)
+			// registrations naming an alias that another denomination owns
+			r.regerc(3, []int{110})
+			r.regcoin(4, []int{140, 120})
+			// removing the first of several aliases, adding it back
+			r.upalias(1, 110)
+			r.upalias(1, 110)
+			// a module-deployed contract and an external contract self-destruct: the next conversion removes the pair
+			r.regcoin(5, []int{150, 151})
+			r.fundc(5, 0, 20)
+			r.ccoin(5, 0, 1, 8)
+			ct5 := r.ctOfDenom(5)
+			r.kill(ct5)
+			r.ccoin(5, 0, 0, 1)
+			r.cerc(ct5, 1, 1, 1)
+			r.regcoin(5, []int{150, 151})
+			r.regerc(6, []int{160, 161})
+			ct6 := r.extOf[6]
+			r.funde(ct6, 1, 30)
+			r.cerc(ct6, 1, 1, 10)
+			r.kill(ct6)
+			r.cerc(ct6, 1, 1, 5)
+			r.ccoin(6, 1, 1, 1)
 		}
 		for i := 0; i < nOps; i++ {
 			r.randomOp()
